@@ -64,12 +64,14 @@ func mcPlan() []*mcRun {
 		{module: "CmapMutex", cfg: ev.Pick("MC_cmap_small_2g.cfg", "MC_cmap_big_2k.cfg")},
 		{module: "CmapMutex", cfg: "MC_cmap_defect.cfg", expect: "-after-deleteunlock"},
 		{module: "CmapMutex", cfg: "MC_cmap_defect_delr.cfg", expect: "-after-deleterunlock"},
+		{module: "CmapMutex", cfg: "MC_cmap_defect_nonatomic.cfg", expect: "inv:NoTwoHolders"}, // DeleteUnlock = Unlock; Delete
 		{module: "CtxLock", cfg: ev.Pick("MC_ctxlock_small.cfg", "MC_ctxlock_big.cfg")},
 		{module: "CtxLock", cfg: "MC_ctxlock_small_rw.cfg"},
 		{module: "CtxLock", cfg: "MC_ctxlock_defect.cfg", expect: "unobtainable-though-nobody-holds-it-after-a-failed-acquisition"},
 		{module: "CtxLock", cfg: "MC_ctxlock_defect_deaf.cfg", expect: "waiter-whose-context-ended-keeps-waiting"},
 		{module: "OuterCancel", cfg: ev.Pick("MC_outer_small.cfg", "MC_outer_big.cfg")},
 		{module: "OuterCancel", cfg: "MC_outer_small_shutdown.cfg"},
+		{module: "OuterCancel", cfg: "MC_outer_defect_erradmit.cfg", expect: "outer-writer-delayed-with-nothing-held"},
 		{module: "OuterCancel", cfg: "MC_outer_defect.cfg", expect: "outer-reader-cancelled-before-grace-since-writer-asked"},
 	}
 	if ev.Thorough() {
@@ -78,6 +80,7 @@ func mcPlan() []*mcRun {
 			&mcRun{module: "CtxLock", cfg: "MC_ctxlock_4g.cfg"},
 			&mcRun{module: "CmapMutex", cfg: "MC_cmap_small.cfg"},
 			&mcRun{module: "CmapMutex", cfg: "MC_cmap_small_2g.cfg"},
+			&mcRun{module: "OuterCancel", cfg: "MC_outer_huge.cfg"}, // 2 readers + 1 writer, grace 2, shutdown and parent cancels: 2.3 M states
 			&mcRun{module: "OuterCancel", cfg: "MC_outer_g2.cfg"},
 			&mcRun{module: "OuterCancel", cfg: "MC_outer_2w.cfg"},
 			&mcRun{module: "OuterCancel", cfg: "MC_outer_2rounds.cfg"},
@@ -122,6 +125,12 @@ func runMC(e *ev.Evidence) {
 		why := ""
 		if ms := reWhy.FindAllStringSubmatch(r.Output, -1); len(ms) > 0 {
 			why = ms[len(ms)-1][1]
+		}
+		if inv, ok := strings.CutPrefix(m.expect, "inv:"); ok { // the defect must break the named invariant of the model itself
+			if !r.Violation || !strings.Contains(r.What, "Invariant "+inv+" is violated") {
+				e.Inconclusive(fmt.Sprintf("defect model %s/%s did not break %s (%s): the model check would be vacuous\n%s", m.module, m.cfg, inv, r.What, r.Tail(800)))
+			}
+			continue
 		}
 		if !r.Violation || why == "" || (m.expect != "*" && !strings.Contains(why, m.expect)) {
 			e.Inconclusive(fmt.Sprintf("defect model %s/%s was not caught as expected (want %q, got violation=%v why=%q): the model check would be vacuous\n%s", m.module, m.cfg, m.expect, r.Violation, why, r.Tail(800)))
@@ -239,15 +248,33 @@ func genScenarios(rng *rand.Rand) []scenario {
 	}
 	w := func(rel string) []section { return []section{{Key: 1, Mode: "w", Rel: rel}} }
 	r := func(rel string) []section { return []section{{Key: 1, Mode: "r", Rel: rel}} }
-	// F-C13-1: a waiter that looked the mutex up before the holder's DeleteUnlock takes the orphaned mutex while a newcomer creates a fresh one
+	// F-C13-1 (as found): a waiter that looked the mutex up before the holder's DeleteUnlock takes the orphaned mutex while a newcomer creates a fresh one
 	add(scenario{Prim: "cmap", Class: "staged:waiter-lookedup-then-deleteunlock-then-newcomer", Clients: [][]section{w("deleteunlock"), w("unlock"), w("unlock")},
-		Prefix: []string{"start:g1", "go:g1:cmap.lock.lookedUp", "go:g1:cmap.lock.created", "start:g2", "go:g1:cs.hold", "start:g3", "go:g3:cmap.lock.lookedUp", "go:g3:cmap.lock.created", "go:g2:cmap.lock.lookedUp"}}, 1)
+		Prefix: []string{"start:g1", "go:g1:cmap.lock.lookedUp", "go:g1:cmap.lock.created", "start:g2", "go:g1:cs.hold", "go:g1:cmap.deleteunlock.begin", "start:g3", "go:g3:cmap.lock.lookedUp", "go:g3:cmap.lock.created", "go:g2:cmap.lock.lookedUp"}}, 1)
 	add(scenario{Prim: "cmap", Class: "staged:two-waiters-lookedup-then-deleteunlock", Clients: [][]section{w("deleteunlock"), w("unlock"), w("unlock")},
-		Prefix: []string{"start:g1", "go:g1:cmap.lock.lookedUp", "go:g1:cmap.lock.created", "start:g2", "start:g3", "go:g1:cs.hold", "go:g2:cmap.lock.lookedUp", "go:g3:cmap.lock.lookedUp", "go:g2:cs.hold"}}, 1)
+		Prefix: []string{"start:g1", "go:g1:cmap.lock.lookedUp", "go:g1:cmap.lock.created", "start:g2", "start:g3", "go:g1:cs.hold", "go:g1:cmap.deleteunlock.begin", "go:g2:cmap.lock.lookedUp", "go:g3:cmap.lock.lookedUp", "go:g2:cs.hold", "go:g2:cmap.unlock.begin"}}, 1)
 	add(scenario{Prim: "cmap", Class: "staged:deleterunlock-with-second-reader-then-writer", Clients: [][]section{r("deleterunlock"), r("runlock"), w("unlock")},
-		Prefix: []string{"start:g1", "go:g1:cmap.rlock.lookedUp", "go:g1:cmap.rlock.created", "start:g2", "go:g2:cmap.rlock.lookedUp", "go:g1:cs.hold", "start:g3", "go:g3:cmap.lock.lookedUp", "go:g3:cmap.lock.created"}}, 1)
+		Prefix: []string{"start:g1", "go:g1:cmap.rlock.lookedUp", "go:g1:cmap.rlock.created", "start:g2", "go:g2:cmap.rlock.lookedUp", "go:g1:cs.hold", "go:g1:cmap.deleterunlock.begin", "start:g3", "go:g3:cmap.lock.lookedUp", "go:g3:cmap.lock.created"}}, 1)
 	add(scenario{Prim: "cmap", Class: "staged:deleterunlock-with-second-reader-then-runlock-of-fresh-mutex", Clients: [][]section{r("deleterunlock"), r("runlock"), w("unlock")},
-		Prefix: []string{"start:g1", "go:g1:cmap.rlock.lookedUp", "go:g1:cmap.rlock.created", "start:g2", "go:g2:cmap.rlock.lookedUp", "go:g1:cs.hold", "start:g3", "go:g3:cmap.lock.lookedUp", "go:g2:cs.hold"}}, 1)
+		Prefix: []string{"start:g1", "go:g1:cmap.rlock.lookedUp", "go:g1:cmap.rlock.created", "start:g2", "go:g2:cmap.rlock.lookedUp", "go:g1:cs.hold", "go:g1:cmap.deleterunlock.begin", "start:g3", "go:g3:cmap.lock.lookedUp", "go:g2:cs.hold", "go:g2:cmap.runlock.begin"}}, 1)
+	// three parties on one key: the holder delete-and-releases while a second one waits on the mutex, a third arrives
+	// afterwards.  Staged: the holder is parked at every point it passes inside its release call, the others run in
+	// between ("go:g1:*" = whatever point g1 is parked at); plus seeded schedules of the same programs.
+	for _, v := range []struct{ h, wt, x []section }{
+		{w("deleteunlock"), w("unlock"), w("unlock")},
+		{w("deleteunlock"), r("runlock"), w("unlock")},
+		{w("deleteunlock"), w("unlock"), r("runlock")},
+		{r("deleterunlock"), w("unlock"), w("unlock")},
+		{r("deleterunlock"), w("unlock"), r("runlock")},
+	} {
+		cl := [][]section{v.h, v.wt, v.x}
+		add(scenario{Prim: "cmap", Class: "staged:holder-parked-inside-delete-and-release-waiter-then-newcomer", Clients: cl,
+			Prefix: []string{"start:g1", "go:g1:*", "go:g1:*", "start:g2", "go:g2:*", "go:g1:cs.hold", "go:g1:*", "go:g1:*", "go:g1:*", "start:g3", "go:g3:*", "go:g3:*"}}, 1)
+		add(scenario{Prim: "cmap", Class: "staged:holder-parked-inside-delete-and-release-newcomer-looks-up-first", Clients: cl,
+			Prefix: []string{"start:g1", "go:g1:*", "go:g1:*", "start:g2", "go:g2:*", "go:g1:cs.hold", "go:g1:*", "go:g1:*", "start:g3", "go:g1:*", "go:g3:*", "go:g3:*"}}, 1)
+		add(scenario{Prim: "cmap", Class: "holder-delete-and-release-waiter-newcomer", Clients: cl,
+			Prefix: []string{"start:g1", "go:g1:*", "go:g1:*", "start:g2", "go:g2:*", "go:g1:cs.hold"}}, ev.Pick(12, 80))
+	}
 	// lock.Context
 	cancels := []string{"", "", "pre", "wait", "wait", "hand-a", "hand-b"}
 	for i := 0; i < nprog(150, 1500); i++ {
@@ -326,6 +353,16 @@ func outerScenarios(rng *rand.Rand) []scenario {
 	S("staged:shutdown-with-readers", R("grace", 0), R("hold", 3*G), A(5), SD, A(5), W(5), R("hold", 1), A(4*G))
 	S("staged:shutdown-while-writer-waits", R("grace", 0), A(5), W(5), A(G/2), SD, A(3*G))
 	S("staged:shutdown-while-writer-holds", W(2*G), A(5), R("hold", 1), SD, A(1), W(5), A(3*G))
+	// an acquisition that reports an error holds nothing: a later writer that finds nothing held is granted at once
+	NW := func(o ostep) ostep { o.NoWait = true; return o }
+	for i := 0; i < ev.Pick(30, 120); i++ {
+		S("staged:precancelled-reader-then-lone-writer", R("precancelled", 0), A(1), W(5), A(3*G))
+	}
+	for i := 0; i < ev.Pick(15, 60); i++ {
+		// the parent context ends while the RLock call is on its way
+		S("staged:reader-cancelled-during-the-call-then-lone-writer", NW(R("hold", 2)), PC(1), A(10), W(5), A(3*G))
+		S("staged:two-readers-cancelled-during-the-call-then-lone-writer", NW(R("hold", 2)), NW(R("hold", 3)), NW(PC(1)), PC(2), A(10), W(5), A(3*G))
+	}
 	durs := []int{0, 1, 5, G / 2, G - 1, G, G + 1, 2 * G}
 	for i := 0; i < ev.Pick(300, 4000); i++ {
 		var st []ostep
@@ -560,6 +597,7 @@ var whyText = map[string]string{
 	"release-never-returns":                                          "a release call never returns",
 	"panic":                                                          "a lock operation panicked",
 	"crash":                                                          "a lock operation killed the process (fatal runtime error)",
+	"outer-writer-delayed-with-nothing-held":                         "outer-cancel: a writer that found nothing held and nothing in flight was not granted at once (an acquisition that reported an error, or a released one, still holds something)",
 	"outer-reader-admitted-while-writer-holds":                       "outer-cancel: a reader was admitted before the writer unlocked",
 	"outer-writer-granted-before-reader-released-or-cancelled":       "outer-cancel: a writer was granted while an earlier reader had neither released nor been cancelled",
 	"outer-reader-cancelled-before-grace-since-writer-asked":         "outer-cancel: a reader's context was cancelled earlier than the grace period after the writer's Lock call",
